@@ -95,7 +95,7 @@ def gen_cases(desc, env):
     return cases
 
 
-WARMUP = ['X1∪\nX2\n∩X3', 'ℬ(X1)×\n\nℬ(X2)', '∀ξ∈X1\n ξ∈X1', 'D{ξ∈X1 |\n∃α∈X1 α=ξ}\n', '((', 'X1∪\n']
+WARMUP = ['X1∪\n) X2', 'X1\n# X2\nX3', '∀ξ∈X1\n ξ ξ\n&1=1', 'X1∪\nX2\n∩X3', 'ℬ(X1)×\n\nℬ(X2)', '∀ξ∈X1\n ξ∈X1', 'D{ξ∈X1 |\n∃α∈X1 α=ξ}\n', '((', 'X1∪\n']
 
 
 def compare(res, cs, ev, lib, ref, spans, path, bad, ambiguous):
